@@ -642,3 +642,164 @@ Proof.
       * apply (IH _ _ H0 Hs); rewrite euler_step_g_length; lia.
       * rewrite zipw_zipw. apply zipw_ext; [apply F2_refl|]. intros x y a Hxy. rewrite grid_factor_step, Hxy. ring.
 Qed.
+
+(* the zero-power factor = (Euler attenuation steps) * (lumped factor of every grid point but the last) *)
+Fixpoint step_prod (a : Q) (grid : list (Q * Q)) : Q :=
+  match grid with
+  | [] => 1
+  | (z0, _) :: t =>
+      match t with
+      | [] => 1
+      | (z1, _) :: _ => (1 - a * (z1 - z0)) * step_prod a t
+      end
+  end.
+Lemma step_prod_step : forall a z0 l0 z1 l1 t,
+  step_prod a ((z0, l0) :: (z1, l1) :: t) = (1 - a * (z1 - z0)) * step_prod a ((z1, l1) :: t).
+Proof. reflexivity. Qed.
+Lemma removelast_step : forall (x y : Q * Q) t, removelast (x :: y :: t) = x :: removelast (y :: t).
+Proof. reflexivity. Qed.
+
+Lemma grid_factor_split : forall a grid,
+  grid_factor a grid == step_prod a grid * qprod (map snd (removelast grid)).
+Proof.
+  intros a grid. induction grid as [|[z0 l0] t IH].
+  - cbn. reflexivity.
+  - destruct t as [|[z1 l1] t'].
+    + cbn. reflexivity.
+    + rewrite grid_factor_step, step_prod_step, removelast_step, IH.
+      cbn [map snd]. rewrite qprod_cons. ring.
+Qed.
+
+Lemma firsts_incl : forall V (l : list (Q * V)) s x, In x (firsts s l) -> In x l.
+Proof.
+  induction l as [|[k v] t IH]; intros s x H; cbn [firsts] in H; [exact H|].
+  destruct (seenb s k).
+  - right. apply (IH s); exact H.
+  - destruct H as [<-|H]; [left; reflexivity|right; apply (IH (k :: s)); exact H].
+Qed.
+
+Lemma firsts_covers : forall V (l : list (Q * V)) s kv, In kv l -> seenb s (fst kv) = false ->
+  exists kv', In kv' (firsts s l) /\ fst kv' == fst kv.
+Proof.
+  induction l as [|[k v] t IH]; intros s kv Hin Hs; [destruct Hin|]. cbn [firsts].
+  destruct (seenb s k) eqn:E.
+  - destruct Hin as [<-|Hin]; [cbn [fst] in Hs; congruence|]. apply IH; assumption.
+  - destruct Hin as [<-|Hin].
+    + exists (k, v). split; [left; reflexivity|reflexivity].
+    + destruct (Qeq_bool (fst kv) k) eqn:E2.
+      * exists (k, v). split; [left; reflexivity|]. cbn [fst]. apply Qeq_bool_iff in E2. symmetry; exact E2.
+      * destruct (IH (k :: s) kv Hin) as [kv' [H1 H2]].
+        -- unfold seenb in *. cbn [existsb]. rewrite E2, Hs. reflexivity.
+        -- exists kv'. split; [right; exact H1|exact H2].
+Qed.
+
+Lemma sorted_last : forall (l : list (Q * Q)) x, StronglySorted klt l -> In x l ->
+  (forall y, In y l -> fst y <= fst x) -> exists l', l = l' ++ [x].
+Proof.
+  induction l as [|a t IH]; intros x HS Hin Hmax; [destruct Hin|].
+  inversion HS as [|a' t' HSt Hall]; subst. destruct t as [|b t''].
+  - destruct Hin as [<-|[]]. exists []. reflexivity.
+  - destruct Hin as [<-|Hin].
+    + exfalso. rewrite Forall_forall in Hall. specialize (Hall b (or_introl eq_refl)). unfold klt in Hall.
+      specialize (Hmax b (or_intror (or_introl eq_refl))). lra.
+    + destruct (IH x HSt Hin) as [l' Hl'].
+      * intros y Hy. apply Hmax. right; exact Hy.
+      * exists (a :: l'). rewrite Hl'. reflexivity.
+Qed.
+
+(* on the solver grid (last point = fibre end, all lumped positions before it) the Euler scheme
+   applies every lumped loss exactly once, provided the positions are pairwise distinct *)
+Lemma euler_lumped_once : forall zl z' L,
+  distinct_positions (map fst zl) = true ->
+  (forall kv, In kv zl -> fst kv < L) -> (forall x, In x z' -> x <= L) ->
+  qprod (map snd (removelast (merge_grid 1 zl (z' ++ [L])))) == qprod (map snd zl).
+Proof.
+  intros zl z' L Hd Hzl Hz.
+  pose proof (lumped_merge_lin zl (z' ++ [L]) Hd) as Htot.
+  set (M := merge_grid 1 zl (z' ++ [L])) in *.
+  set (G := map (fun x : Q => (x, 1)) (z' ++ [L])).
+  assert (Permutation M (firsts [] (zl ++ G))) as HP by (apply merge_list_perm).
+  assert (forall y, In y M -> In y (zl ++ G)) as Hsub.
+  { intros y Hy. eapply firsts_incl. eapply Permutation_in; eauto. }
+  destruct (firsts_covers Q (zl ++ G) [] (L, 1)) as [kv [Hkv1 Hkv2]].
+  { apply in_or_app. right. unfold G. apply (in_map (fun x : Q => (x, 1))). apply in_or_app. right. left. reflexivity. }
+  { reflexivity. }
+  cbn [fst] in Hkv2.
+  assert (In kv M) as HkvM by (eapply Permutation_in; [apply Permutation_sym; exact HP|exact Hkv1]).
+  assert (snd kv = 1) as Hv.
+  { specialize (Hsub kv HkvM). apply in_app_or in Hsub. destruct Hsub as [Hin|Hin].
+    - exfalso. specialize (Hzl kv Hin). lra.
+    - unfold G in Hin. apply in_map_iff in Hin. destruct Hin as [x [<- _]]. reflexivity. }
+  destruct (sorted_last M kv) as [M' HM'].
+  - apply merge_list_sorted.
+  - exact HkvM.
+  - intros y Hy. specialize (Hsub y Hy). apply in_app_or in Hsub. destruct Hsub as [Hin|Hin].
+    + specialize (Hzl y Hin). lra.
+    + unfold G in Hin. apply in_map_iff in Hin. destruct Hin as [x [<- Hx]]. cbn [fst].
+      apply in_app_or in Hx. destruct Hx as [Hx|[<-|[]]]; [specialize (Hz x Hx)|]; lra.
+  - rewrite HM' in *. rewrite removelast_last. rewrite map_app, qprod_app in Htot.
+    cbn [map] in Htot. rewrite qprod_cons, qprod_nil, Hv in Htot. rewrite <- Htot. ring.
+Qed.
+
+(* the loss-profile form euler_g is the scheme of the code (euler) divided by the input powers *)
+Lemma dot_compat : forall r p p', Forall2 Qeq p p' -> dot r p == dot r p'.
+Proof.
+  unfold dot. induction r as [|a r IH]; intros p p' HF; [reflexivity|].
+  inversion HF as [|x y l l' Hxy HFt]; subst; [reflexivity|].
+  cbn [combine map fst snd]. rewrite !qsum_cons, (IH l l' HFt), Hxy. reflexivity.
+Qed.
+
+Lemma euler_step_link : forall P P', Forall2 Qeq P P' -> forall dz ll p0 g p alpha cr,
+  Forall2 Qeq p (zipw Qmult p0 g) ->
+  Forall2 Qeq
+    (map (fun t : Q * (Q * list Q) => let '(pj, (aj, crj)) := t in pj * (1 + (- aj + dot crj P) * dz) * ll)
+         (combine p (combine alpha cr)))
+    (zipw Qmult p0
+       (map (fun t : Q * (Q * list Q) => let '(gj, (aj, crj)) := t in gj * (1 + (- aj + dot crj P') * dz) * ll)
+            (combine g (combine alpha cr)))).
+Proof.
+  intros P P' HP dz ll. induction p0 as [|x p0 IH]; intros g p alpha cr H.
+  - inversion H; subst. constructor.
+  - destruct g as [|y g].
+    + inversion H; subst. constructor.
+    + unfold zipw in H. cbn [combine map fst snd] in H. inversion H as [|q xy p' l' Hq Ht]; subst.
+      destruct alpha as [|a alpha]; [constructor|]. destruct cr as [|c cr]; [constructor|].
+      unfold zipw. cbn [combine map fst snd]. constructor.
+      * rewrite Hq, (dot_compat c P P' HP). ring.
+      * apply IH. exact Ht.
+Qed.
+
+Lemma euler_g_correct : forall alpha cr p0 grid p g,
+  Forall2 Qeq p (zipw Qmult p0 g) ->
+  Forall2 Qeq (euler alpha cr grid p) (zipw Qmult p0 (euler_g alpha cr p0 grid g)).
+Proof.
+  intros alpha cr p0 grid. induction grid as [|[z0 l0] t IH]; intros p g H.
+  - exact H.
+  - destruct t as [|[z1 l1] t']; [exact H|]. cbn [euler euler_g]. apply IH.
+    unfold euler_step, euler_step_g. apply euler_step_link; [|exact H]. exact H.
+Qed.
+
+(* ================================================================================================
+   6. refutations: what the faithful model does when two lumped losses share a position (F10) *)
+Definition wit_fiber : fiber :=
+  mkFiber 80 true 1 (1 # 2) (7 # 10) (Scalar (1 # 5)) [(10, 3 # 2); (10, 2)] 193414489032258
+          (DispScalar (167 # 10000000) None) (1265 # 1000000000000000000) (1468 # 1000).
+
+Lemma lumped_dup_refuted : exists zl z,
+  Forall (fun kv => 0 < snd kv) zl /\ ~ qsum (map snd (merge_grid 0 zl z)) == qsum (map snd zl).
+Proof.
+  exists [(10000, 3 # 2); (10000, 2)], [0; 80000]. split.
+  - repeat constructor.
+  - intros H. vm_compute in H. discriminate H.
+Qed.
+
+Lemma fiber_budget_dup_refuted : exists fib f p a out,
+  lumped_in_range fib = true /\ Forall (fun zl => 0 < snd zl) (f_lumped fib) /\
+  loss_coef_at fib f = Ok a /\ fiber_power_out fib f p = Ok out /\
+  ~ out == p - loss_budget fib a /\ out == p - loss_budget fib a + 2.
+Proof.
+  exists wit_fiber, 193100000000000, 0, ((1 # 5) / 1000). eexists. split; [reflexivity|]. split; [repeat constructor|].
+  split; [reflexivity|]. split; [vm_compute; reflexivity|]. split.
+  - intros H. vm_compute in H. discriminate H.
+  - vm_compute. reflexivity.
+Qed.
